@@ -609,6 +609,7 @@ fn run_check_inner(cfg: &CheckCfg) -> CheckResult {
     let mut known_lines = BTreeSet::new();
     let mut violation_lines = Vec::new();
     let mut reported = 0;
+    let mut unreproduced = 0u64;
     let replay_dir = format!("{}/replays", verif_dir());
     let t_min = Instant::now();
     for (sig, idxs) in by_sig.iter() {
@@ -621,8 +622,8 @@ fn run_check_inner(cfg: &CheckCfg) -> CheckResult {
             known_lines.insert(format!("KNOWN-FINDING: property={} sig={} {} [{} runs]", cfg.prop, k.sig, k.text, idxs.len()));
             continue;
         }
-        exit = 1;
         if reported >= 4 {
+            exit = 1;
             violation_lines.push(format!("(further signature not minimised: {sig}, {} runs, first index {})", idxs.len(), found[idxs[0]].index));
             continue;
         }
@@ -656,8 +657,11 @@ fn run_check_inner(cfg: &CheckCfg) -> CheckResult {
                         (ep.clone(), first.violation.unwrap(), false)
                     }
                 } else {
-                    eprintln!("harness: violation {sig} of run {} did not reproduce in a fresh process (got {:?})", f.index, first.violation.as_ref().map(|v| &v.signature));
-                    (ep.clone(), f.violation.clone(), false)
+                    // a violation that a fresh process does not reproduce is not reported as one:
+                    // replaying a replay file must reproduce the violation exactly
+                    eprintln!("harness: violation {sig} of run {} did not reproduce in a fresh process (got {:?}); not reported", f.index, first.violation.as_ref().map(|v| &v.signature));
+                    unreproduced += 1;
+                    continue;
                 };
                 let mut viol = viol;
                 if !cfg.flavour.is_empty() && !viol.signature.ends_with(&format!("+{}", cfg.flavour)) {
@@ -746,6 +750,12 @@ fn run_check_inner(cfg: &CheckCfg) -> CheckResult {
         exit = 2;
     }
     if harness_errors > 0 && exit == 0 {
+        exit = 2;
+    }
+    if violation_lines.iter().any(|l| l.starts_with("VIOLATION")) {
+        exit = 1;
+    } else if unreproduced > 0 && exit == 0 {
+        // only unreproducible signatures were seen: a harness problem, not a property violation
         exit = 2;
     }
     let _ = sample_of;
